@@ -5,7 +5,7 @@
 # VERIF_REPO (neither /repo nor the evidence directory is touched), and remove the worktree.
 ID=$1; SUF=$2; shift; shift
 V=${VERIF_DIR:-/verif}   # where the checks run from (e.g. the stable worktree /work/stable while /verif is being edited)
-W=/tmp/mut/$ID-$SUF
+W=${SEED_ROOT:-/tmp/mut}/$ID-$SUF
 SRC=$W/_seed
 DST=/verif/seeded/$ID-$SUF
 [ -f "$SRC/patch.diff" ] || { echo "no $SRC/patch.diff"; exit 2; }
